@@ -8,7 +8,7 @@ from checks import appcommon
 # per property: directed scenarios, random profiles (quick / thorough), outcome kinds that must be
 # exercised on the unchanged tree (vacuity guard), bounded model config(s)
 TABLE = {
-    "C02": dict(evm=True, directed=["many_new_accounts", "big_powers", "prefund_then_create", "evm_odd_addresses", "fee_edges", "evm_sweep_to_zero", "wrap_amount", "checktx_not_delivered", "evm_value", "evm_selfdestruct", "evm_nested_revert", "evm_mixed", "recreate_in_block", "genesis_twins_unbond", "twin_jail", "huge_stake", "same_block_withdraw",
+    "C02": dict(evm=True, directed=["stake_amount_shapes", "many_new_accounts", "big_powers", "prefund_then_create", "evm_odd_addresses", "fee_edges", "evm_sweep_to_zero", "wrap_amount", "checktx_not_delivered", "evm_value", "evm_selfdestruct", "evm_nested_revert", "evm_mixed", "recreate_in_block", "genesis_twins_unbond", "twin_jail", "huge_stake", "same_block_withdraw",
                           "slash_then_unstake", "no_proposer_block", "many_unbonding", "forced_unbond"],
                 quick=[dict(n=6, blocks=25), dict(n=4, blocks=20, boundary=True)],
                 thorough=[dict(n=40, blocks=40), dict(n=40, blocks=40, seed_off=50), dict(n=30, blocks=30, boundary=True),
@@ -18,7 +18,7 @@ TABLE = {
                 quick=[dict(n=8, blocks=20, maxtx=7)],
                 thorough=[dict(n=50, blocks=40, maxtx=8), dict(n=50, blocks=40, maxtx=8, seed_off=31)],
                 need=[("transfer", True), ("transfer", False), ("staking", True)]),
-    "C05": dict(evm=True, directed=["many_new_accounts", "zero_gas_price", "evm_odd_addresses", "evm_rejected_then_more", "native_to_contract", "wrap_amount", "evm_fail", "evm_nested_revert", "fee_edges", "nonce_replay", "vote_window_edges", "forced_unbond", "huge_stake", "same_block_withdraw",
+    "C05": dict(evm=True, directed=["stake_amount_shapes", "many_new_accounts", "zero_gas_price", "evm_odd_addresses", "evm_rejected_then_more", "native_to_contract", "wrap_amount", "evm_fail", "evm_nested_revert", "fee_edges", "nonce_replay", "vote_window_edges", "forced_unbond", "huge_stake", "same_block_withdraw",
                           "setdoc_and_accounts", "price_change"],
                 quick=[dict(n=8, blocks=20, maxtx=7), dict(n=3, blocks=15, boundary=True)],
                 thorough=[dict(n=50, blocks=40, maxtx=8), dict(n=40, blocks=40, maxtx=8, seed_off=11), dict(n=30, blocks=30, boundary=True)],
@@ -27,7 +27,7 @@ TABLE = {
                 quick=[dict(n=8, blocks=30, extra=["-prestart", "0.1"])],
                 thorough=[dict(n=60, blocks=50), dict(n=60, blocks=50, seed_off=13)],
                 need=[("staking", True), ("unstaking", True), ("absent", True)]),
-    "C11": dict(directed=["big_powers", "self_unstake_after_restart", "tiny_stakes_slashed", "checktx_not_delivered", "self_below_min", "recreate_in_block", "forced_unbond", "slash_then_unstake", "genesis_twins_unbond", "validator_churn", "many_unbonding"],
+    "C11": dict(directed=["stake_amount_shapes", "big_powers", "self_unstake_after_restart", "tiny_stakes_slashed", "checktx_not_delivered", "self_below_min", "recreate_in_block", "forced_unbond", "slash_then_unstake", "genesis_twins_unbond", "validator_churn", "many_unbonding"],
                 quick=[dict(n=8, blocks=25, extra=["-prestart", "0.1"])],
                 thorough=[dict(n=60, blocks=50), dict(n=60, blocks=50, seed_off=17)],
                 need=[("staking", True), ("unstaking", True), ("evidence", True)]),
@@ -43,11 +43,11 @@ TABLE = {
                 quick=[dict(n=8, blocks=30, extra=["-prestart", "0.1"])],
                 thorough=[dict(n=60, blocks=50), dict(n=60, blocks=50, seed_off=29)],
                 need=[("evidence", True), ("absent", True)]),
-    "C15": dict(directed=["big_powers", "tiny_voter_slashed", "voter_leaves_set", "many_proposals_one_block", "evidence_after_close", "evidence_burst", "vote_window_edges", "threshold_exact", "majority_lost", "two_proposals_one_block", "price_change", "many_unbonding"],
+    "C15": dict(directed=["mixed_proposal_types", "big_powers", "tiny_voter_slashed", "voter_leaves_set", "many_proposals_one_block", "evidence_after_close", "evidence_burst", "vote_window_edges", "threshold_exact", "majority_lost", "two_proposals_one_block", "price_change", "many_unbonding"],
                 quick=[dict(n=8, blocks=30)],
                 thorough=[dict(n=60, blocks=50), dict(n=60, blocks=60, seed_off=37)],
                 need=[("proposal", True), ("proposal", False), ("voting", True), ("voting", False)]),
-    "C16": dict(evm=True, directed=["zero_gas_price", "mingas_above_intrinsic", "native_to_contract", "evm_rejected_then_more", "evm_basic", "evm_value", "evm_fail", "evm_selfdestruct", "transfer_to_created", "fee_edges", "price_change", "no_proposer_block", "two_proposals_one_block", "same_block_withdraw", "many_unbonding"],
+    "C16": dict(evm=True, directed=["mixed_proposal_types", "zero_gas_price", "mingas_above_intrinsic", "native_to_contract", "evm_rejected_then_more", "evm_basic", "evm_value", "evm_fail", "evm_selfdestruct", "transfer_to_created", "fee_edges", "price_change", "no_proposer_block", "two_proposals_one_block", "same_block_withdraw", "many_unbonding"],
                 quick=[dict(n=8, blocks=25, maxtx=7)],
                 thorough=[dict(n=60, blocks=40, maxtx=8), dict(n=60, blocks=40, maxtx=8, seed_off=41)],
                 need=[("transfer", True), ("transfer", False), ("withdraw", True)]),
@@ -60,7 +60,7 @@ TABLE = {
                 quick=[dict(n=8, blocks=25, maxtx=6)],
                 thorough=[dict(n=60, blocks=40, maxtx=8), dict(n=60, blocks=40, maxtx=8, seed_off=47), dict(n=30, blocks=30, boundary=True, seed_off=53)],
                 need=[("contract", True), ("contract", False), ("transfer", True)]),
-    "C19": dict(directed=["query_in_flight", "setdoc_and_accounts", "vote_window_edges", "forced_unbond"],
+    "C19": dict(directed=["mixed_proposal_types", "price_change", "query_in_flight", "setdoc_and_accounts", "vote_window_edges", "forced_unbond"],
                 quick=[dict(n=6, blocks=20, extra=["-queries", "3", "-prestart", "0.15"])],
                 thorough=[dict(n=40, blocks=40, extra=["-queries", "4", "-prestart", "0.1"]),
                           dict(n=40, blocks=40, seed_off=43, extra=["-queries", "4", "-prestart", "0.1"])],
